@@ -578,9 +578,11 @@ class XsdGlobals(XsdValidator, Collection[SchemaType]):
 
             self.check(schemas)
 
-            self._built = True
             if _verif_trace.ENABLED:
+                # logged BEFORE the flag is set: the flag is read without the lock, so an event
+                # logged after the assignment could be overtaken by a reader's 'lock.fast'
                 _verif_trace.emit('lock.built', maps=id(self))
+            self._built = True
             for s in schemas:
                 s.clear()
 
